@@ -98,6 +98,8 @@ func c12HTML(s *pgScn, variant int) string {
 	if s.NthPages != nil {
 		fmt.Fprintf(&b, `@page :nth(%dn%+d){margin-right:25px}`, s.Nth.A, s.Nth.B)
 	}
+	// two rules for the same margin box: the one with the more specific page selector wins although it comes first
+	b.WriteString(`@page :first{@top-right{content:"F";font-family:weasyprint;font-size:8px;line-height:10px}}@page{@top-right{content:"N";font-family:weasyprint;font-size:8px;line-height:10px}}`)
 	b.WriteString(`@page :left{margin-left:20px}@page :right{margin-left:30px}@page :blank{@top-center{content:"blank";font-family:weasyprint;font-size:8px;line-height:10px}}`)
 	b.WriteString(`html,body,div,section,article{display:block;margin:0;padding:0}p{display:block;margin:0;font-family:weasyprint;font-size:8px;line-height:10px}</style></head><body>`)
 	n := 0
@@ -297,7 +299,7 @@ func c12Main(args []string) int {
 					out.Disagree("C12:geometry:nth-selector", fmt.Sprintf("page %d has margin-right %g instead of %g with @page :nth(%dn%+d){margin-right:25px}: %s", i+1, o.mr, wantMR, s.Nth.A, s.Nth.B, show()), detail())
 				}
 			}
-			wantMargin := []string{fmt.Sprintf("%d/%d", i+1, len(obs))}
+			wantMargin := []string{fmt.Sprintf("%d/%d", i+1, len(obs)), map[bool]string{true: "F", false: "N"}[i == 0]}
 			if o.Blank {
 				wantMargin = append([]string{"blank"}, wantMargin...)
 			}
